@@ -2,10 +2,10 @@ package rules
 
 import (
 	"fmt"
-	"os"
 	"go/ast"
 	"go/token"
 	"go/types"
+	"os"
 	"sort"
 	"strings"
 
@@ -59,37 +59,37 @@ func formatterFuncs(p *core.Program) []*core.FuncDecl {
 // Frozen table of the early exits / skips that exist in the formatting layer
 // today, each with the reason why nothing computed is dropped.
 var formatExitAllowed = map[string]string{
-	"netpol/connlist.(*formatMD).writeOutput: early return #1":                         "no exposure section without the flag: returns the complete connlist part",
-	"netpol/connlist.(*formatText).writeOutput: early return #1":                       "no exposure section without the flag: returns the complete connlist part",
-	"netpol/connlist.(singleConnFields).exposureString: early return #1":               "alternative rendering (ingress line puts the exposed peer first); all three fields in both",
-	"netpol/connlist.ValidateOutputFormat: early return #1":                            "format validation, not a row path",
-	"netpol/connlist.formExposureItemAsSingleConnFiled: early return #1":               "alternative rendering of the other end (entire-cluster vs labels); same connection",
-	"netpol/connlist.formSingleExposureConn: early return #1":                          "alternative orientation (ingress: src is the potential peer); same fields",
-	"netpol/connlist.getExposureEdgeLine: early return #1":                             "alternative orientation of the dot edge; same connection",
-	"netpol/connlist.getMDHeader: early return #1":                                     "alternative column order (orientation parity is rule C09-orient)",
-	"netpol/connlist.getMDLine: early return #1":                                       "alternative column order (orientation parity is rule C09-orient)",
-	"netpol/connlist.getMdSubSectionHeader: early return #1":                           "alternative sub-section header",
-	"netpol/connlist.getRepresentativeNamespaceString: early return #1":                "a namespace selector that is exactly the name label is printed as the namespace name",
-	"netpol/connlist.getRepresentativeNamespaceString: early return #2":                "brackets for textual formats",
-	"netpol/connlist.getRepresentativePodString: early return #1":                      "brackets for textual formats",
-	"netpol/connlist.getXgressExposureEdges: continue #1":                              "placed after the emission of the entire-cluster edge (the entry has no labels to draw)",
-	"netpol/connlist.peerNameAndColorByType: early return #1":                          "alternative node style for IP peers",
-	"netpol/connlist.peerNameAndColorByType: early return #2":                          "alternative node style for the ingress controller",
-	"netpol/connlist.writeCsvSubSection: early return #1":                              "an empty sub-section prints no header (nothing to drop: the list is empty)",
-	"netpol/diff.(*DiffAnalyzer).ConnectivityDiffToString: early return #1":            "empty diff prints the empty string (documented)",
-	"netpol/diff.(*connsPair).Dst: early return #1":                                    "accessor: an added pair has only the second side (C04-b)",
-	"netpol/diff.(*connsPair).Ref1Connectivity: early return #1":                       "accessor: an added pair has no first connection (C04-b)",
-	"netpol/diff.(*connsPair).Ref2Connectivity: early return #1":                       "accessor: a removed pair has no second connection (C04-b)",
-	"netpol/diff.(*connsPair).Src: early return #1":                                    "accessor: an added pair has only the second side (C04-b)",
-	"netpol/diff.(*diffFormatText).singleDiffLine: early return #1":                    "alternative rendering with the workload annotation appended",
-	"netpol/diff.ValidateDiffOutputFormat: early return #1":                            "format validation, not a row path",
-	"netpol/diff.getNodePeerLabelAndType: early return #1":                             "alternative node label for IP peers / ingress controller",
-	"netpol/internal/common.(*ConnectionSet).String: early return #1":                  "canonical rendering of the full set",
-	"netpol/internal/common.(*ConnectionSet).String: early return #2":                  "canonical rendering of the empty set",
-	"netpol/internal/common.(*portRange).String: early return #1":                      "a range start-end vs a single port",
-	"netpol/internal/common.ConnStrFromConnProperties: early return #1":                "canonical rendering of the full set",
-	"netpol/internal/common.ConnStrFromConnProperties: early return #2":                "canonical rendering of the empty set",
-	"netpol/internal/common.MakeConnectionSet: early return #1":                        "constructor, not a row path",
+	"netpol/connlist.(*formatMD).writeOutput: early return #1":              "no exposure section without the flag: returns the complete connlist part",
+	"netpol/connlist.(*formatText).writeOutput: early return #1":            "no exposure section without the flag: returns the complete connlist part",
+	"netpol/connlist.(singleConnFields).exposureString: early return #1":    "alternative rendering (ingress line puts the exposed peer first); all three fields in both",
+	"netpol/connlist.ValidateOutputFormat: early return #1":                 "format validation, not a row path",
+	"netpol/connlist.formExposureItemAsSingleConnFiled: early return #1":    "alternative rendering of the other end (entire-cluster vs labels); same connection",
+	"netpol/connlist.formSingleExposureConn: early return #1":               "alternative orientation (ingress: src is the potential peer); same fields",
+	"netpol/connlist.getExposureEdgeLine: early return #1":                  "alternative orientation of the dot edge; same connection",
+	"netpol/connlist.getMDHeader: early return #1":                          "alternative column order (orientation parity is rule C09-orient)",
+	"netpol/connlist.getMDLine: early return #1":                            "alternative column order (orientation parity is rule C09-orient)",
+	"netpol/connlist.getMdSubSectionHeader: early return #1":                "alternative sub-section header",
+	"netpol/connlist.getRepresentativeNamespaceString: early return #1":     "a namespace selector that is exactly the name label is printed as the namespace name",
+	"netpol/connlist.getRepresentativeNamespaceString: early return #2":     "brackets for textual formats",
+	"netpol/connlist.getRepresentativePodString: early return #1":           "brackets for textual formats",
+	"netpol/connlist.getXgressExposureEdges: continue #1":                   "placed after the emission of the entire-cluster edge (the entry has no labels to draw)",
+	"netpol/connlist.peerNameAndColorByType: early return #1":               "alternative node style for IP peers",
+	"netpol/connlist.peerNameAndColorByType: early return #2":               "alternative node style for the ingress controller",
+	"netpol/connlist.writeCsvSubSection: early return #1":                   "an empty sub-section prints no header (nothing to drop: the list is empty)",
+	"netpol/diff.(*DiffAnalyzer).ConnectivityDiffToString: early return #1": "empty diff prints the empty string (documented)",
+	"netpol/diff.(*connsPair).Dst: early return #1":                         "accessor: an added pair has only the second side (C04-b)",
+	"netpol/diff.(*connsPair).Ref1Connectivity: early return #1":            "accessor: an added pair has no first connection (C04-b)",
+	"netpol/diff.(*connsPair).Ref2Connectivity: early return #1":            "accessor: a removed pair has no second connection (C04-b)",
+	"netpol/diff.(*connsPair).Src: early return #1":                         "accessor: an added pair has only the second side (C04-b)",
+	"netpol/diff.(*diffFormatText).singleDiffLine: early return #1":         "alternative rendering with the workload annotation appended",
+	"netpol/diff.ValidateDiffOutputFormat: early return #1":                 "format validation, not a row path",
+	"netpol/diff.getNodePeerLabelAndType: early return #1":                  "alternative node label for IP peers / ingress controller",
+	"netpol/internal/common.(*ConnectionSet).String: early return #1":       "canonical rendering of the full set",
+	"netpol/internal/common.(*ConnectionSet).String: early return #2":       "canonical rendering of the empty set",
+	"netpol/internal/common.(*portRange).String: early return #1":           "a range start-end vs a single port",
+	"netpol/internal/common.ConnStrFromConnProperties: early return #1":     "canonical rendering of the full set",
+	"netpol/internal/common.ConnStrFromConnProperties: early return #2":     "canonical rendering of the empty set",
+	"netpol/internal/common.MakeConnectionSet: early return #1":             "constructor, not a row path",
 }
 
 // NoDropExits is the no-drop rule of C09: in the formatting layer every
